@@ -318,7 +318,10 @@ func one(run *vh.Run, label string, variant int) {
 			run.Nontrivial(fmt.Sprintf("%s.%s|%s|d%d|p%d|%s", j.m.Kind, j.m.Name, j.f, len(j.ch.kinds), pos, strings.Join(pat, ">")))
 			run.Distinct("method_x_final", fmt.Sprintf("%s.%s|%s", j.m.Kind, j.m.Name, j.f))
 			diff := vh.Diff(ob.Pre[bi].Dump, ob.Post[bi].Dump)
-			extra := nonTrivialWrites(diff, e.sender.Addr)
+			extra := nonTrivialWritesJ(diff, e.sender.Addr, j.f == vh.STATICCALL)
+			if j.f == vh.STATICCALL {
+				run.Count("static_final_trees_with_the_account_counter_judged", 1)
+			}
 			rc, _ := vh.ReceiptOf(res)
 			nlogs := 0
 			if rc != nil {
@@ -442,6 +445,20 @@ func mustOK(run *vh.Run, label, what string, br *vh.BlockResult) {
 // sequence increment and the fee movement (incl. first-use module account records and the
 // supply / EVM-module bookkeeping of the fee refund).
 func nonTrivialWrites(diff []vh.Change, sender common.Address) []vh.Change {
+	return nonTrivialWritesJ(diff, sender, false)
+}
+
+// nonTrivialWritesJ: with judgeCounter, a move of x/auth's global account number that no new account record in the same
+// write set explains counts as a write (an account was created and swept again inside the transaction). Only asked for
+// where the precompile is entered by STATICCALL: a CALL to an address without an account record creates one in
+// go-ethereum itself (and the sweep of empty accounts removes it), whatever the callee is.
+func nonTrivialWritesJ(diff []vh.Change, sender common.Address, judgeCounter bool) []vh.Change {
+	newRecords := 0
+	for _, ch := range diff {
+		if ch.Store == "acc" && len(ch.Key) > 0 && ch.Key[0] == 0x01 && ch.Old == nil {
+			newRecords++
+		}
+	}
 	feeColl := vh.FeeCollectorAddr.Bytes()
 	evmMod := vh.EvmModuleAddr.Bytes()
 	var out []vh.Change
@@ -453,7 +470,9 @@ func nonTrivialWrites(diff []vh.Change, sender common.Address) []vh.Change {
 				continue
 			}
 			if len(ch.Key) > 0 && ch.Key[0] != 0x01 { // global account number counter / index
-				continue
+				if !judgeCounter || newRecords > 0 || ch.Key[0] != 0x02 {
+					continue
+				}
 			}
 		case "bank":
 			if len(ch.Key) > 0 && ch.Key[0] == 0x00 { // supply
